@@ -137,6 +137,9 @@ structure St where
   effective : Bool := false
   /-- ghost: a forged packet closed the connection or moved its state (already reported) -/
   harmed : Bool := false
+  /-- the dial succeeded but the two sides do not agree: judged at the end of the case, when it is known
+  whether an attack the protocol permits (valid Initial keys, …) was acted upon -/
+  pendingAgree : Option String := none
 
 def sections (s : String) : List (List String) := (s.splitOn " ; ").map words
 
@@ -252,6 +255,9 @@ def stepRunZ (s : St) (impl : String) : St × StepOut := Id.run do
         fails := fails ++ [("zero_rtt_exactly_once_or_never", "-", s!"rejected but server read npayload={np} nresend={nr} nother={no}")]
       if m.get "after" != "E:0rtt_rejected/E:0rtt_rejected" || m.get "next" != "nil" then
         fails := fails ++ [("zero_rtt_reject_not_reported", "-", impl)]
+      -- DropPackets(0-RTT): every 0-RTT packet left loss recovery's accounting
+      if m.get "left0" != "0" || m.get "leftbytes" != "0" then
+        fails := fails ++ [("zero_rtt_reject_keeps_packets", "-", impl)]
     else if !(np == 1 && no == 0) then
       fails := fails ++ [("zero_rtt_exactly_once_or_never", "-", s!"no early data attempted, server read npayload={np} nother={no}")]
   if m.get "cleft" != "0" || m.get "sleft" != "0" then
@@ -264,6 +270,7 @@ def stepRunZ (s : St) (impl : String) : St × StepOut := Id.run do
 def stepRun (s : St) (impl : String) : St × StepOut := Id.run do
   let m := kvOf (words impl)
   let mut fails : List (String × String × String) := []
+  let mut pending : Option String := none
   let dial := m.get "dial"
   let vn := s.scn.get "vn"
   if b1 (m.get "hang") || m.get "redial" == "hang" then
@@ -277,8 +284,10 @@ def stepRun (s : St) (impl : String) : St × StepOut := Id.run do
     -- Negotiation loses its packet-handler entry when the first attempt's closed-connection placeholder expires
     let zeroLenRestart := s.scn.get "client" == "chrome" && natOf (m.get "att") ≥ 2 && m.get "echo" == "fail" &&
       m.get "acc" == "ok" && m.get "cv" == m.get "sv" && m.get "calpn" == m.get "salpn" && m.get "c0" == m.get "s0" && m.get "cids" == "ok"
-    if !agree then
-      fails := fails ++ [("success_without_agreement", if zeroLenRestart then "zero_len_scid_restart_unroutable" else "-", impl)]
+    if !agree && zeroLenRestart then
+      fails := fails ++ [("success_without_agreement", "zero_len_scid_restart_unroutable", impl)]
+    else if !agree then
+      pending := some impl
     if vn == "fail" then
       fails := fails ++ [("success_without_common_version", "-", impl)]
   if m.get "cleft" != "0" || m.get "sleft" != "0" then
@@ -289,7 +298,7 @@ def stepRun (s : St) (impl : String) : St × StepOut := Id.run do
     let zeroLenRedial := s.scn.get "client" == "chrome" && m.get "redial" == "E:idle_timeout"
     fails := fails ++ [("redial_after_failure_fails", if zeroLenRedial then "zero_len_scid_redial_unroutable" else "-", impl)]
   let tag := if dial == "nil" then "run:ok" else s!"run:{dial}"
-  return ({ s with ran := true, run := m, ntrace := natOf (m.get "ntrace") }, { model := impl, tags := [tag], fails := fails })
+  return ({ s with ran := true, run := m, ntrace := natOf (m.get "ntrace"), pendingAgree := pending }, { model := impl, tags := [tag], fails := fails })
 
 def stepDeadline (s : St) (impl : String) : St × StepOut :=
   match impl.splitOn " | " with
@@ -323,8 +332,12 @@ def step (s : St) (op impl : String) : St × StepOut :=
 /-- judged when the whole trace of the run was seen: with bounded faults and no effective attack the
 handshake converges -/
 def final (s : St) : List (String × String × String) :=
-  if s.ran && s.ntrace == s.seenPkts && s.run.get "dial" != "nil" && s.scn.get "vn" != "fail" && !s.effective && !s.harmed then
+  let complete := s.ran && s.ntrace == s.seenPkts
+  (if complete && s.run.get "dial" != "nil" && s.scn.get "vn" != "fail" && !s.effective && !s.harmed then
     [("bounded_faults_do_not_converge", "-", s!"dial={s.run.get "dial"} with {s.nFault} faults and {s.nInj} ineffective injections")]
-  else []
+  else []) ++
+  (match s.pendingAgree with
+   | some impl => if complete && !s.effective && !s.harmed then [("success_without_agreement", "-", impl)] else []
+   | none => [])
 
 def main : IO Unit := run { init := ({} : St), step := step, final := final }
